@@ -40,17 +40,91 @@ def goodCheck (s : St CHeap) : Option String :=
         if s.bp + 4 ≤ s.stack.sp then none else some "frame-live"
       | _ => none
 
+/-! ## the invariant form (`Lemmas/Good*.lean`): `GoodI` and the frame discipline `StackDisc`
+
+Executable counterparts of the clauses that `Lemmas/GoodDefs.lean` adds to `Good`: `acc` holds a value, the
+code discipline of every lambda object (`LamOk`: MOV / MOVIMM never address a heap cell through a `Ptr` operand
+and MOVIMM loads a value), the environment discipline (`EnvOk`), and — the hypothesis along the run — the stack
+cells the current instruction consumes as values hold values (`StackDisc.src/cons/call/enter`). The code-discipline
+clause is not evaluated on hand-assembled bytecode (info token `…+syn…`: it violates it on purpose). -/
+
+def valueB (v : VCell) : Bool := isPtr v || addrFreeB v
+
+def notPtrB : VCell → Bool
+  | .ptr _ => false
+  | _ => true
+
+def opndAllB (P : VCell → Bool) : Option VCell → Bool
+  | some v => P v
+  | none => true
+
+def lamOkB (l : CLambda) : Bool :=
+  (List.range l.bc.length).all fun j =>
+    match l.bc[j]? with
+    | some (.opcode .mov) => opndAllB notPtrB l.bc[j + 1]? && opndAllB notPtrB l.bc[j + 2]?
+    | some (.opcode .movImm) => opndAllB valueB l.bc[j + 1]? && opndAllB notPtrB l.bc[j + 2]?
+    | _ => true
+
+def slotOkB (h : CHeap) (v : VCell) : Bool :=
+  valueB v || (match v with
+    | .lexEnvPtr e k => (match h.cells[e]? with
+      | some (.lexEnv ss) => (match ss[k]? with
+        | some w => valueB w
+        | none => false)
+      | _ => false)
+    | _ => false)
+
+/-- `ArgBlock st k` -/
+def argBlockB (st : Stack) (k : Nat) : Bool :=
+  match st.cells[k]? with
+  | some (.argc n) => (List.range k).all fun i => !(k ≤ i + n) || (match st.cells[i]? with
+    | some v => valueB v
+    | none => true)
+  | _ => true
+
+def goodICheck (syn : Bool) (s : St CHeap) : Option String :=
+  let h := s.heap
+  if !valueB s.acc then some "acc-value" else
+  if !syn && !(h.cells.all fun c => match c with | .lambda l => lamOkB l | _ => true) then some "code-ok" else
+  if !(h.cells.all fun c => match c with | .lexEnv ss => ss.all (slotOkB h) | _ => true) then some "env-ok" else
+  match lambdaAt h s.ipL with
+  | none => none
+  | some l =>
+    match l.bc[s.ipO]? with
+    | some (.opcode .mov) =>
+      (match l.bc[s.ipO + 1]? with
+       | some (.bpOffset off) =>
+         let i := (s.bp : Int) + off
+         if 0 ≤ i then (match s.stack.cells[i.toNat]? with
+           | some v => if valueB v then none else some "disc-src"
+           | none => none) else none
+       | _ => none)
+    | some (.opcode .cons) =>
+      if (List.range (s.stack.sp + 1)).all fun i => !(s.stack.sp ≤ i + 1) || (match s.stack.cells[i]? with
+        | some v => valueB v
+        | none => true) then none else some "disc-cons"
+    | some (.opcode .callAcc) | some (.opcode .tcallAcc) =>
+      if argBlockB s.stack s.stack.sp then none else some "disc-call"
+    | some (.opcode .enter) | some (.opcode .varArg) =>
+      if argBlockB s.stack (s.stack.sp - 2) then none else some "disc-enter"
+    | _ => none
+
+def isSynthetic (info : String) : Bool := (info.splitOn "+syn").length > 1
+
 def handle (args : List String) : Option String :=
   match args with
-  | _info :: ts => do
+  | info :: ts => do
     let (r, ts) ← decRegs ts
     let (h, ts) ← decHeap ts
     let (_, ts) ← decExt ts
     if !ts.isEmpty then none else
     let s : St CHeap := { heap := h, stack := r.stack, acc := r.acc, ep := r.ep, ipL := r.ipL, ipO := r.ipO, bp := r.bp }
     pure (match goodCheck s with
-      | none => "ok"
-      | some e => "bad " ++ e)
+      | some e => "bad " ++ e
+      | none =>
+        match goodICheck (isSynthetic info) s with
+        | none => "ok"
+        | some e => "bad " ++ e)
   | [] => none
 
 end Marwood.Driver.SimGood
